@@ -538,7 +538,7 @@ impl String {
             IntegerOrInfinity::Integer(i) if i >= 0 && i < len => i as usize,
             // 6. Else,
             // a. Let k be len + relativeIndex.
-            IntegerOrInfinity::Integer(i) if i < 0 && (-i) <= len => (len + i) as usize,
+            IntegerOrInfinity::Integer(i) if i < 0 && i >= -len => (len + i) as usize,
             // 7. If k < 0 or k ≥ len, return undefined.
             _ => return Ok(JsValue::undefined()),
         };
